@@ -191,8 +191,39 @@ def correspond(ctx, corr):
     corr.count("purity_ordered_pairs", npairs)
     snap1 = registry_snapshot()
     if snap0 != snap1:
-        corr.violate("decode:registry", "registry snapshot before/after the run", snap0, snap1,
-                     "decoding or construction mutated a registry")
+        # some class-level container of the decoding classes changed while decoding.  That is a violation only if
+        # it CHANGES A RESULT (a memo of derived data filled on first use is not): every frame decoded in this
+        # process is decoded again, in a fresh order, and compared with the model, which is a function of
+        # (frame, device type, map) alone; then the snapshot must have stopped moving.
+        order2 = list(range(len(sub)))
+        rng.shuffle(order2)
+        again = {k: dec(sub[k]) for k in order2}
+        mans = cc.run_model("m_cmd", ["dec %d %d %d %s" % (sub[k][0], sub[k][1], sub[k][2], cc.map_tok(sub[k][3]))
+                                      for k in range(len(sub))])
+        nbad = 0
+        for k in range(len(sub)):
+            if again[k] != mans[k] or again[k] != first[k]:
+                nbad += 1
+                if nbad <= 3:
+                    corr.violate("decode:order", {"frame": sub[k][:3], "after": "class-level state of the decoders "
+                                                  "changed during earlier decoding"}, mans[k], again[k],
+                                 "decoding depends on what was decoded before")
+        for c in ctx_frames:
+            for t in targets:
+                command.from_frame(ForwardFrame(c[0], c[1]), devicetype=c[2])
+                got = cc.cmd_canon(lambda: command.from_frame(ForwardFrame(t[0], t[1]), devicetype=t[2]))
+                if got != want[t]:
+                    corr.violate("decode:order", {"first": "dec %d %d %d -" % c, "then": "dec %d %d %d -" % t},
+                                 want[t], got, "the result of decoding depends on what was decoded before")
+        snap2 = registry_snapshot()
+        corr.count("purity_recheck_after_state_change", len(sub) + len(ctx_frames) * len(targets))
+        if snap2 != snap1:
+            corr.violate("decode:registry", "class-level containers of the decoding classes after decoding the "
+                         "same frames a second time", snap1, snap2,
+                         "decoding keeps rewriting class-level state (it is not a memo that fills once)")
+        else:
+            corr.rule.append("class-level state of the decoding classes changed during the first decoding pass and "
+                             "was stable afterwards (a memo); every frame re-decoded against the model: unchanged")
     for c in set(i.split("|")[0] for i in first):
         corr.nontrivial(("class", c))
     corr.sample({"suite": "decode", "request": "dec 16 483 6 -", "impl": dec((16, 483, 6, None))})
